@@ -350,6 +350,8 @@ impl<'a> Child<'a> {
                     .collect(),
             );
         }
+        // names at and beyond the length limit made of multi-byte characters at every small offset
+        strings.extend(crate::c17::boundary_names());
         let mut scrypt_budget = ctx.tier.pick(25, 300);
         for s in &strings {
             self.j.set("keys", s.as_bytes());
